@@ -1,7 +1,9 @@
 package main
 
 import (
+	"bytes"
 	"context"
+	"crypto/sha256"
 	"fmt"
 	tss "github.com/IBM/TSS/types"
 	"strings"
@@ -209,6 +211,142 @@ func unitC04live(e common.Env, p *common.Part) {
 		c.Stop()
 		if i%19 == 0 {
 			p.Sample(map[string]interface{}{"case": key})
+		}
+	}
+}
+
+// ---------------- C04: consecutive sessions on one topic, an acknowledgement of the first arriving in the second ----------------
+
+// unitC04twice: a fault-free session needs every payload and N-2 acknowledgements per broadcast, but never the acknowledgements
+// about a party's OWN broadcasts: those are the only traffic that can still be under way towards a party when its session ends.
+// Here they are delayed (a legal delivery order) until the party takes part in the NEXT session on the same topic. Both sessions
+// are fault-free, so both complete with every message handed over exactly once.
+func unitC04twice(e common.Env, p *common.Part) {
+	p.Rule = "two consecutive all-honest scripted sessions on ONE topic (key generation twice; signing twice with the same topic string) of real Loud/barrier schemes in random mode, N=3,4, one or two rounds of broadcasts; the acknowledgements of the first session about party P's own broadcasts (the only traffic a completed fault-free session can leave under way towards P) are delivered to P when it transmits its first broadcast of the second session, i.e. inside the second session and before that session's acknowledgements on the same links; oracle: both sessions return nil everywhere and hand every message over exactly once; distinct key = (N, mode, operation, P, index); non-trivial when at least one acknowledgement crossed the session boundary"
+	p.Assumptions = append(p.Assumptions, "a session that misses its 5 s watchdog is judged only if the network had been empty and the event log silent for >= 2 s when the deadline fired; any other deadline is counted as undecided and not reported")
+	n := e.Pick(48, 1200)
+	for i := 0; i < n; i++ {
+		if !e.Mine(i) || p.ViolationCount() >= 3 {
+			continue
+		}
+		r := e.Rng("c04twice", i)
+		N := 3 + i%2
+		var ids []uint16
+		for k := 1; k <= N; k++ {
+			ids = append(ids, uint16(k))
+		}
+		mode := []string{"loud", "barrier"}[(i/2)%2]
+		sign := (i/4)%2 == 1
+		P := ids[r.Intn(N)]
+		polName, pol := policyByIndex(i, r, ids)
+		key := fmt.Sprintf("N=%d %s sign=%v P=%d %s #%d", N, mode, sign, P, polName, i)
+		p.Begin(key)
+		c := newRCluster(cluster.Config{Map: identityMap(ids...), Barrier: mode == "barrier", Threshold: N - 1}, r, pol)
+		script := backend.Script{Rounds: []uint8{1, 2}[:1+(i/8)%2], Bcast: true}
+		type heldPkt struct {
+			src   uint16
+			typ   uint8
+			topic []byte
+			data  []byte
+		}
+		var mu sync.Mutex
+		var own [][]byte // digests of P's broadcasts as they may appear in acknowledgements
+		var held []heldPkt
+		phase, crossed := 0, 0
+		isPayload := func(data []byte) bool {
+			for _, b := range c.AllBackends() {
+				for _, sp := range b.SentCopy() {
+					if bytes.HasSuffix(data, sp.Payload) {
+						return true
+					}
+				}
+			}
+			return false
+		}
+		for _, u := range ids {
+			u := u
+			c.Net.SetInterceptor(u, func(nw *simnet.Net, src uint16, typ uint8, tp, data []byte, dsts []uint16) []simnet.Outgoing {
+				var outs []simnet.Outgoing
+				pay := typ == uint8(tss.MsgTypeMPC) && isPayload(data)
+				mu.Lock()
+				defer mu.Unlock()
+				if u == P && pay {
+					if phase == 0 {
+						d1, d2 := sha256.Sum256(data), sha256.Sum256(data[1:])
+						own = append(own, d1[:], d2[:])
+					} else if len(held) > 0 {
+						// the first session's acknowledgements about P's own broadcasts arrive now: P's second session is set up (it is
+						// transmitting), and nobody can have acknowledged its new broadcast yet
+						for _, h := range held {
+							nw.Inject(h.src, simnet.Outgoing{Dst: P, Type: h.typ, Topic: h.topic, Data: h.data})
+							crossed++
+						}
+						held = nil
+					}
+				}
+				aboutOwn := false
+				if u != P && phase == 0 && typ == uint8(tss.MsgTypeMPC) && !pay {
+					for _, d := range own {
+						if bytes.Contains(data, d) {
+							aboutOwn = true
+						}
+					}
+				}
+				for _, d := range dsts {
+					if aboutOwn && d == P {
+						held = append(held, heldPkt{u, typ, append([]byte{}, tp...), append([]byte{}, data...)})
+						continue
+					}
+					outs = append(outs, simnet.Outgoing{Dst: d, Type: typ, Topic: tp, Data: data})
+				}
+				return outs
+			})
+		}
+		sig, what := "", ""
+		for sess := 0; sess < 2 && sig == ""; sess++ {
+			mu.Lock()
+			phase = sess
+			mu.Unlock()
+			timeout := 5 * time.Second
+			sc := sessCfg{Callers: ids, Sign: sign, Topic: fmt.Sprintf("c04twice-%d", i), Digest: []byte("0123456789abcdef0123456789abcdef"), Script: script, Timeout: timeout}
+			if sign {
+				for _, u := range ids {
+					c.Schemes[u].SetStoredData([]byte("share-of-x"))
+				}
+			}
+			res := c.run(sc)
+			if u, err := allNil(res, ids); err != nil {
+				if res.Elapsed >= timeout && res.QuietAtFirstReturn < 2*time.Second {
+					p.Count("undecided_deadlines", 1)
+					break
+				}
+				sig, what = "session-failed", fmt.Sprintf("session %d of 2 on the topic, node %d: %v", sess+1, u, err)
+				if res.Elapsed >= timeout {
+					what += fmt.Sprintf(" (the network had been empty and silent for %v when the deadline fired)", res.QuietAtFirstReturn.Round(100*time.Millisecond))
+				}
+			} else {
+				sig, what = sessionTotality(c, sc, res)
+				if sig != "" {
+					what = fmt.Sprintf("session %d of 2 on the topic: %s", sess+1, what)
+				}
+			}
+			if len(res.Panics) > 0 {
+				sig, what = "panic", res.Panics[0]
+			}
+			p.Count("sessions", 1)
+			c.drain(100 * time.Millisecond)
+		}
+		mu.Lock()
+		cr := crossed
+		mu.Unlock()
+		p.Case(key, cr > 0)
+		p.Count("acknowledgements_delivered_in_the_next_session", int64(cr))
+		if sig != "" {
+			p.Violate("totality/consecutive-sessions/"+sig, fmt.Sprintf("%s: %s; %d acknowledgements of the first session about party %d's own broadcasts were delivered to it during the second", key, what, cr, P), map[string]interface{}{"ids": ids, "mode": mode, "sign": sign, "P": P, "policy": polName})
+		}
+		c.Stop()
+		if i%11 == 0 {
+			p.Sample(map[string]interface{}{"case": key, "acknowledgements_crossed": cr})
 		}
 	}
 }
